@@ -166,6 +166,8 @@ class Model:
                     if r == 'UNKNOWN':
                         raise AssertionError('generator must not chain unknown events')
                     self.log.append(('chainret', state, i, r, self.now))
+                # the action still reads the data of the event that caused it
+                self.log.append(('hookafter', 'enter', who, state, dict(data), self.now))
 
     # ---- the FSM proper
     def event(self, ev, data):
@@ -410,6 +412,7 @@ def build_fsm(desc, log, clock):
                     for i in range(script['times']):
                         r = f.event(real_event(script['chain']), **real_data(script['data']))
                         log.append(('chainret', name, i, r, clock()))
+                    log.append(('hookafter', kind, who, name, seen()[0], clock()))
             return None
         hook.__name__ = f'{kind}_{name}'
         return hook
